@@ -25,5 +25,12 @@ void interval_move_without_properties(To_Boundary& to_lower, To_Info& to_info,
   PPL_USED(rl);
 }
 
+// Positive example for R12.10: two bounds compared as plain numbers.
+template <typename ITV>
+bool interval_bounds_compared_without_properties(const ITV& x, const ITV& y) {
+  return !x.upper_is_boundary_infinity() && !y.upper_is_boundary_infinity()
+    && y.upper() <= x.upper();
+}
+
 } // namespace Verif_Positive
 } // namespace Parma_Polyhedra_Library
